@@ -125,11 +125,11 @@ Proof.
     - apply andb_true_iff in Hreq. destruct Hreq as [Hr Hn]. apply requester_facts in Hr. destruct Hr as [Hr1 Hr2].
       eapply wpg_weaken; [|intros; exact I]. apply (@declare_static_files_spec true); [exact HI|]. intros _. split; [exact Hr1|]. split; [|apply nodup_str; exact Hn].
       destruct Hr2 as [->|Hk]; [reflexivity | rewrite Hk; reflexivity].
-    - rewrite !andb_true_iff in Hreq. destruct Hreq as [[[Hr Ho] Hv] Hcyc]. apply negb_true_iff in Hcyc.
+    - rewrite !andb_true_iff in Hreq. destruct Hreq as [[Hr Ho] Hv].
       apply requester_facts in Hr. destruct Hr as [Hr1 Hr2].
       eapply wpg_weaken; [|intros; exact I]. apply (@define_step_spec true); [exact HI|]. intros _. split; [exact Hr1|].
       split; [destruct Hr2 as [->|Hk]; [reflexivity | rewrite Hk; reflexivity]|].
-      split; [apply nodup_str; assumption|]. split; [apply nodup_str; assumption | exact Hcyc].
+      split; apply nodup_str; assumption.
     - rewrite !andb_true_iff in Hreq. destruct Hreq as [[Hk Ho] Hv]. apply is_some_true in Hk.
       eapply wpg_weaken; [|intros; exact I]. apply (@amend_step_spec true); [exact HI|]. intros _. split; [exact Hk|]. split; apply nodup_str; assumption.
     - unfold hold. rewrite Hreq. cbn. exact I.
